@@ -156,6 +156,8 @@ STRS = ["s", "", "line\u2028sep", "para\u2029sep", "nel\x85", "vt\x0bff\x0c", "f
 
 def rand_obj(rng, depth=0):
     n = rng.randint(0, 5 if depth == 0 else 3)
+    if depth == 0 and rng.random() < 0.15:
+        n = rng.randint(8, 14)  # a wide top level
     o = {}
     for _ in range(n):
         k = rng.choice(WORDS) if rng.random() < 0.7 else "".join(rng.choice("ab.é \\") for _ in range(rng.randint(0, 4)))
@@ -171,6 +173,12 @@ def rand_obj(rng, depth=0):
 
 def mutate(rng, o):
     c = copy.deepcopy(o)
+    if isinstance(c, dict) and len(c) >= 8 and rng.random() < 0.6:
+        # nearly everything changed at once
+        for k in list(c):
+            if rng.random() < 0.9:
+                c[k] = rng.choice([7, "changed", None, {"n": 1}, [1, 2], 2.5])
+        return c
     for _ in range(rng.randint(0, 4)):
         tgt = c
         # descend randomly
